@@ -165,7 +165,8 @@ SigCase(m) ==
                  [k |-> IF m.sigs[i] = "ok" THEN "ok" ELSE "garbage",
                   b |-> IF i \in DOMAIN m.signers /\ m.signers[i] \in KeyperIdx THEN m.signers[i] ELSE NK,
                   o |-> ""]],
-     mut |-> ""]
+     mut |-> "",
+     ann |-> <<"S">>]       \* one keyper set announced for the eon, never re-announced
 Verdict(outcomes) == IF outcomes = {SR!Accept} THEN "accept" ELSE "reject"
 
 (* gnosis DecryptionKeySharesHandler.ValidateMessage (extra present, sender index in range,
@@ -183,7 +184,7 @@ ValidateMsg(m) == IF m.t = "shares" THEN ValidateShares(m) ELSE ValidateKeys(m)
 (* gnosisaccessnode DecryptionKeysHandler.ValidateMessage: validateCommonFields (every key verifies
    against the eon key) then validateGnosisFields (the same signature function) *)
 ANValidate(m) ==
-    IF ~m.ok \/ Len(m.c.ids) = 0 THEN "reject" ELSE Verdict(SR!ValidateMessage(SigCase(m)))
+    IF ~m.ok \/ Len(m.c.ids) = 0 THEN "reject" ELSE Verdict(SR!AccessValidateMessage(SigCase(m)))
 
 ----------------------------------------------------------------------------
 (* middleware: interceptDecryptionKeyShares / interceptDecryptionKeys (messages WITHOUT extra that
